@@ -9,6 +9,7 @@ import (
 	"github.com/go-kid/ioc/util/el"
 	"github.com/go-kid/strconv2"
 	"github.com/pkg/errors"
+	"strconv"
 	"strings"
 )
 
@@ -80,6 +81,10 @@ func (c *configQuoteAwarePostProcessors) PostProcessProperties(properties []*com
 
 			if expVal == nil {
 				return "", nil
+			}
+			// a float64 is spliced in plain digits: %v would write 1e+06, which ParseAny reads back as a string
+			if f, ok := expVal.(float64); ok {
+				return strconv.FormatFloat(f, 'f', -1, 64), nil
 			}
 			marshalVal, err := strconv2.FormatAny(expVal)
 			if err != nil {
